@@ -4,7 +4,7 @@ from fractions import Fraction
 import fw
 
 BASES = 'ACGT'
-REFLEN = 3000
+REFLEN = 4000
 
 
 # ------------------------------------------------------------------ harness-side helpers (independent of pysam)
@@ -162,11 +162,11 @@ class Gen:
         mode = rng.random()
         if mode < 0.3:       # soft-masked (lower case) stretches and N
             for _ in range(6):
-                a = rng.randrange(600, 2400); b = a + rng.randrange(1, 60)
+                a = rng.randrange(900, 3400); b = a + rng.randrange(1, 60)
                 for i in range(a, b):
                     s[i] = s[i].lower()
             for _ in range(10):
-                s[rng.randrange(600, 2400)] = 'N'
+                s[rng.randrange(900, 3400)] = 'N'
         return ''.join(s)
 
     def cigar(self, qlen, first_m=1, last_m=1, clip_start=False, clip_end=False):
@@ -189,7 +189,7 @@ class Gen:
             m = rng.randint(1, max(1, left - last_m)) if left - last_m >= 1 else 1
             ops.append([0, m])
             left -= m
-        if ops[-1][0] == 0 and ops[-1][1] < last_m:
+        if ops[-1][0] in (0, 7, 8) and ops[-1][1] < last_m:
             ops[-1][1] = last_m
         if clip_end and rng.random() < 0.3:
             ops.append([4, rng.randint(1, 5)])
@@ -236,7 +236,7 @@ class Gen:
         ref = self.ref()
         klass = rng.choice(['nla', 'nla', 'chic', 'base'])
         rev = rng.random() < 0.4
-        S = rng.randrange(900, 1500)
+        S = rng.randrange(1600, 2200)
         nfrag = rng.choice([1, 1, 2, 2, 3, 4, 6, depth_max])
         err = rng.choice([0, 0.02, 0.1, 0.3, 0.5])
         qmode = rng.choice([30, 37, 2, 'two', 'edge', 'rand', 'rand'])
@@ -249,6 +249,8 @@ class Gen:
                             clip_start=rev, clip_end=not rev)
             if klass == 'chic' and cg[0][0] == 4:
                 cg = cg[1:]
+            if ref_len(cg) > 700:       # keep every read inside the contig
+                cg = [[0, qlen]]
             if rev:
                 # all R1 of a reverse molecule end at the same coordinate (site defined by reference_end)
                 end = S + 4
@@ -256,6 +258,7 @@ class Gen:
             else:
                 pos = S
             r1 = self.read(ref, pos, cg, rev, err, qmode)
+            assert len(r1['seq']) == len(r1['qual']) >= 4
             if klass == 'nla':
                 s = list(r1['seq'])
                 if rev:
@@ -285,14 +288,18 @@ class Gen:
                 gm = gapmode if gapmode != 'mixed' else rng.choice(['overlap', 'near', 'far'])
                 off = {'overlap': rng.randint(0, 25), 'near': rng.randint(20, 120), 'far': rng.randint(150, 700)}[gm]
                 cg2 = self.cigar(rng.randint(6, 60), clip_start=True, clip_end=True)
+                if ref_len(cg2) > 700:
+                    cg2 = [[0, rng.randint(6, 60)]]
                 if not rev:
                     p2 = S + off
                 else:
                     p2 = S + 4 - off - ref_len(cg2)
+                assert 0 <= p2 and p2 + ref_len(cg2) < REFLEN, (p2, cg2)
                 r2 = self.read(ref, p2, cg2, not rev, err, qmode)
                 if rng.random() < 0.04:
                     r2 = {'pos': r1['pos'], 'unmapped': True, 'seq': r2['seq'], 'qual': r2['qual'], 'rev': False, 'mapq': 0,
                           'cigar': []}
+            assert len(r1['seq']) == len(r1['qual']) == sum(n for op, n in r1['cigar'] if op in (0, 1, 4, 7, 8)), r1
             f = {'reads': [r1, r2]}
             frags.append(f)
         umi = ''.join(rng.choice(BASES) for _ in range(rng.choice([3, 6, 8])))
